@@ -1,5 +1,7 @@
 import ScrapliProps.C05Lemmas
 import ScrapliModel.Bytes
+import ScrapliModel.Spec.SessionNames
+import ScrapliModel.C05Suite_eosP
 import ScrapliProps.C05.eosS_configuration_det
 import ScrapliProps.C05.eosS_configuration_for
 import ScrapliProps.C05.eosS_configuration_own
@@ -182,13 +184,13 @@ theorem nxos_exec : ModeOK nxos.table (nthMode nxos.modes 0) :=
   modeOK_of_empty _ _ Ob.nxos_exec_det.empty Ob.nxos_exec_own.empty Ob.nxos_exec_for.empty
 example : rmatch (nthMode nxos.modes 0).grammar (ofString "n9k(maint-mode)> ") = true := by decide +kernel
 
-/-- nxos, mode `privilege_exec` -/
-theorem nxos_privilege_exec : ModeOK nxos.table (nthMode nxos.modes 1) :=
+/-- nxos, mode `privilege_exec` — PARTIAL: grammar restricted (F24 open: hostname without `-tcl`; unrestricted verdict: C05Full.nxosFull_privilege_exec_full_refuted) -/
+theorem nxos_privilege_exec_partial : ModeOK nxos.table (nthMode nxos.modes 1) :=
   modeOK_of_empty _ _ Ob.nxos_privilege_exec_det.empty Ob.nxos_privilege_exec_own.empty Ob.nxos_privilege_exec_for.empty
 example : rmatch (nthMode nxos.modes 1).grammar (ofString "n9k# ") = true := by decide +kernel
 
-/-- nxos, mode `configuration` -/
-theorem nxos_configuration : ModeOK nxos.table (nthMode nxos.modes 2) :=
+/-- nxos, mode `configuration` — PARTIAL: grammar restricted (F24 open: hostname without `config-`; unrestricted verdict: C05Full.nxosFull_configuration_full_refuted) -/
+theorem nxos_configuration_partial : ModeOK nxos.table (nthMode nxos.modes 2) :=
   modeOK_of_empty _ _ Ob.nxos_configuration_det.empty Ob.nxos_configuration_own.empty Ob.nxos_configuration_for.empty
 example : rmatch (nthMode nxos.modes 2).grammar (ofString "n9k(config-if)# ") = true := by decide +kernel
 
@@ -203,15 +205,15 @@ theorem nxos_groups_present : nxos.modes.all (groupPresent nxos.table) = true :=
 /-- `update_regenerates`: the pattern the channel holds is (modulo ACI of `|`) the alternation of this table -/
 theorem nxos_detect_is_join : ∀ w, detects nxos.table w = true ↔ ∃ l ∈ nxos.table.levels, Lang l.search w :=
   detect_join _ (by decide +kernel)
-/-- **C05 for nxos**: every mode of the specification -/
+/-- **C05 for nxos**: every mode of the specification (modes marked PARTIAL: for the restricted grammar) -/
 theorem nxos_all : ∀ m ∈ nxos.modes, ModeOK nxos.table m := by
   apply forall_modes
   intro i hi
   rw [nxos_nmodes] at hi
   match i, hi with
   | 0, _ => exact nxos_exec
-  | 1, _ => exact nxos_privilege_exec
-  | 2, _ => exact nxos_configuration
+  | 1, _ => exact nxos_privilege_exec_partial
+  | 2, _ => exact nxos_configuration_partial
   | 3, _ => exact nxos_tclsh
   | k + 4, h => omega
 
@@ -223,13 +225,13 @@ theorem nxosS_exec : ModeOK nxosS.table (nthMode nxosS.modes 0) :=
   modeOK_of_empty _ _ Ob.nxosS_exec_det.empty Ob.nxosS_exec_own.empty Ob.nxosS_exec_for.empty
 example : rmatch (nthMode nxosS.modes 0).grammar (ofString "n9k> ") = true := by decide +kernel
 
-/-- nxosS, mode `privilege_exec` -/
-theorem nxosS_privilege_exec : ModeOK nxosS.table (nthMode nxosS.modes 1) :=
+/-- nxosS, mode `privilege_exec` — PARTIAL: grammar restricted (F24 open: hostname without `-tcl` (see nxosFull)) -/
+theorem nxosS_privilege_exec_partial : ModeOK nxosS.table (nthMode nxosS.modes 1) :=
   modeOK_of_empty _ _ Ob.nxosS_privilege_exec_det.empty Ob.nxosS_privilege_exec_own.empty Ob.nxosS_privilege_exec_for.empty
 example : rmatch (nthMode nxosS.modes 1).grammar (ofString "n9k# ") = true := by decide +kernel
 
-/-- nxosS, mode `configuration` -/
-theorem nxosS_configuration : ModeOK nxosS.table (nthMode nxosS.modes 2) :=
+/-- nxosS, mode `configuration` — PARTIAL: grammar restricted (F24 open: hostname without `config-`; also sub-mode not starting with `s` (F25, fixed: unrestricted sub-modes PROVED in C05Full.nxosSFull_configuration_full)) -/
+theorem nxosS_configuration_partial : ModeOK nxosS.table (nthMode nxosS.modes 2) :=
   modeOK_of_empty _ _ Ob.nxosS_configuration_det.empty Ob.nxosS_configuration_own.empty Ob.nxosS_configuration_for.empty
 example : rmatch (nthMode nxosS.modes 2).grammar (ofString "n9k(config-if)# ") = true := by decide +kernel
 
@@ -249,15 +251,15 @@ theorem nxosS_groups_present : nxosS.modes.all (groupPresent nxosS.table) = true
 /-- `update_regenerates`: the pattern the channel holds is (modulo ACI of `|`) the alternation of this table -/
 theorem nxosS_detect_is_join : ∀ w, detects nxosS.table w = true ↔ ∃ l ∈ nxosS.table.levels, Lang l.search w :=
   detect_join _ (by decide +kernel)
-/-- **C05 for nxosS**: every mode of the specification -/
+/-- **C05 for nxosS**: every mode of the specification (modes marked PARTIAL: for the restricted grammar) -/
 theorem nxosS_all : ∀ m ∈ nxosS.modes, ModeOK nxosS.table m := by
   apply forall_modes
   intro i hi
   rw [nxosS_nmodes] at hi
   match i, hi with
   | 0, _ => exact nxosS_exec
-  | 1, _ => exact nxosS_privilege_exec
-  | 2, _ => exact nxosS_configuration
+  | 1, _ => exact nxosS_privilege_exec_partial
+  | 2, _ => exact nxosS_configuration_partial
   | 3, _ => exact nxosS_tclsh
   | 4, _ => exact nxosS_session
   | k + 5, h => omega
@@ -315,13 +317,13 @@ theorem eosS_configuration : ModeOK eosS.table (nthMode eosS.modes 2) :=
   modeOK_of_empty _ _ Ob.eosS_configuration_det.empty Ob.eosS_configuration_own.empty Ob.eosS_configuration_for.empty
 example : rmatch (nthMode eosS.modes 2).grammar (ofString "leaf1(config-s)#") = true := by decide +kernel
 
-/-- eosS, mode `session:confs-` -/
-theorem eosS_session3 : ModeOK eosS.table (nthMode eosS.modes 3) :=
+/-- eosS, mode `session:confs-` — PARTIAL: grammar restricted (hostname without `_` (F26, fixed: unrestricted grammar PROVED in C05Full.eosSFull_session0_full); name set must satisfy SessionNames.unrelated (F27/F28 open)) -/
+theorem eosS_session3_partial : ModeOK eosS.table (nthMode eosS.modes 3) :=
   modeOK_of_empty _ _ Ob.eosS_session3_det.empty Ob.eosS_session3_own.empty Ob.eosS_session3_for.empty
 example : rmatch (nthMode eosS.modes 3).grammar (ofString "leaf1(config-s-confs--if)#") = true := by decide +kernel
 
-/-- eosS, mode `session:c.F+g` -/
-theorem eosS_session4 : ModeOK eosS.table (nthMode eosS.modes 4) :=
+/-- eosS, mode `session:c.F+g` — PARTIAL: grammar restricted (hostname without `_` (F26, fixed: unrestricted grammar PROVED in C05Full.eosSFull_session1_full); name set must satisfy SessionNames.unrelated (F27/F28 open)) -/
+theorem eosS_session4_partial : ModeOK eosS.table (nthMode eosS.modes 4) :=
   modeOK_of_empty _ _ Ob.eosS_session4_det.empty Ob.eosS_session4_own.empty Ob.eosS_session4_for.empty
 example : rmatch (nthMode eosS.modes 4).grammar (ofString "leaf1(config-s-c.F+g)#") = true := by decide +kernel
 
@@ -331,7 +333,7 @@ theorem eosS_groups_present : eosS.modes.all (groupPresent eosS.table) = true :=
 /-- `update_regenerates`: the pattern the channel holds is (modulo ACI of `|`) the alternation of this table -/
 theorem eosS_detect_is_join : ∀ w, detects eosS.table w = true ↔ ∃ l ∈ eosS.table.levels, Lang l.search w :=
   detect_join _ (by decide +kernel)
-/-- **C05 for eosS**: every mode of the specification -/
+/-- **C05 for eosS**: every mode of the specification (modes marked PARTIAL: for the restricted grammar) -/
 theorem eosS_all : ∀ m ∈ eosS.modes, ModeOK eosS.table m := by
   apply forall_modes
   intro i hi
@@ -340,8 +342,8 @@ theorem eosS_all : ∀ m ∈ eosS.modes, ModeOK eosS.table m := by
   | 0, _ => exact eosS_exec
   | 1, _ => exact eosS_privilege_exec
   | 2, _ => exact eosS_configuration
-  | 3, _ => exact eosS_session3
-  | 4, _ => exact eosS_session4
+  | 3, _ => exact eosS_session3_partial
+  | 4, _ => exact eosS_session4_partial
   | k + 5, h => omega
 
 
@@ -352,13 +354,13 @@ theorem junos_exec : ModeOK junos.table (nthMode junos.modes 0) :=
   modeOK_of_empty _ _ Ob.junos_exec_det.empty Ob.junos_exec_own.empty Ob.junos_exec_for.empty
 example : rmatch (nthMode junos.modes 0).grammar (ofString "{master:0}\nadmin@mx1> ") = true := by decide +kernel
 
-/-- junos, mode `configuration` -/
-theorem junos_configuration : ModeOK junos.table (nthMode junos.modes 1) :=
+/-- junos, mode `configuration` — PARTIAL: grammar restricted (F12 open: prompt without `root`; unrestricted verdict: C05Full.junosFull_configuration_full_refuted) -/
+theorem junos_configuration_partial : ModeOK junos.table (nthMode junos.modes 1) :=
   modeOK_of_empty _ _ Ob.junos_configuration_det.empty Ob.junos_configuration_own.empty Ob.junos_configuration_for.empty
 example : rmatch (nthMode junos.modes 1).grammar (ofString "{master:0}[edit]\nadmin@mx1# ") = true := by decide +kernel
 
-/-- junos, mode `shell` -/
-theorem junos_shell : ModeOK junos.table (nthMode junos.modes 2) :=
+/-- junos, mode `shell` — PARTIAL: grammar restricted (F12 open: prompt without `root`; unrestricted verdict: C05Full.junosFull_shell_full_refuted) -/
+theorem junos_shell_partial : ModeOK junos.table (nthMode junos.modes 2) :=
   modeOK_of_empty _ _ Ob.junos_shell_det.empty Ob.junos_shell_own.empty Ob.junos_shell_for.empty
 example : rmatch (nthMode junos.modes 2).grammar (ofString "admin@mx1:~ % ") = true := by decide +kernel
 
@@ -373,17 +375,31 @@ theorem junos_groups_present : junos.modes.all (groupPresent junos.table) = true
 /-- `update_regenerates`: the pattern the channel holds is (modulo ACI of `|`) the alternation of this table -/
 theorem junos_detect_is_join : ∀ w, detects junos.table w = true ↔ ∃ l ∈ junos.table.levels, Lang l.search w :=
   detect_join _ (by decide +kernel)
-/-- **C05 for junos**: every mode of the specification -/
+/-- **C05 for junos**: every mode of the specification (modes marked PARTIAL: for the restricted grammar) -/
 theorem junos_all : ∀ m ∈ junos.modes, ModeOK junos.table m := by
   apply forall_modes
   intro i hi
   rw [junos_nmodes] at hi
   match i, hi with
   | 0, _ => exact junos_exec
-  | 1, _ => exact junos_configuration
-  | 2, _ => exact junos_shell
+  | 1, _ => exact junos_configuration_partial
+  | 2, _ => exact junos_shell_partial
   | 3, _ => exact junos_root_shell
   | k + 4, h => omega
 
+
+/-! ### session name sets -/
+
+open Scrapli.Spec.SessionNames in
+/-- the EOS name set for which the session modes are PROVED (`eosS_all`) satisfies the hypothesis "no truncated name is a
+    case-folded prefix of another" (equal truncated names are a deliberate share group) -/
+theorem eosS_names_unrelated : unrelated Gen.C05.eosSessions = true := by decide +kernel
+
+open Scrapli.Spec.SessionNames in
+/-- the EOS name set `abc, abcd, wxyz, WXYZ` violates it; for that set the session modes are REFUTED on the unchanged
+    patterns (generated `eosPFull_…_full_refuted` in C05Full.lean: findings F27 prefix, F28 case).  The positive claim
+    for EOS sessions is therefore conditional on `unrelated` and established for the concrete generated name sets only
+    (no parametric proof over all names). -/
+theorem eosP_names_related : unrelated Gen.C05.eosPSessions = false := by decide +kernel
 
 end Scrapli.C05
